@@ -11,6 +11,8 @@ Known finding F15c (EnvironBuilder: urlsplit drops TAB/CR/LF) is outside the mod
 All theorems listed in DESIGN.md for C15 (P0 and P1) are proved below; nothing is left OPEN.
 -/
 import WzVerif.Lemmas.UrlStable
+import WzVerif.Lemmas.UrlTextIri
+import WzVerif.Model.UrlEnviron
 namespace Wz.Props.C15
 open Wz Wz.Url
 
@@ -125,6 +127,61 @@ theorem iriToUri_idempotent_parts (p : Parts) :
   · exact quote_idempotent _ _ (by decide)
   · exact quote_idempotent _ _ (by decide)
   · exact quote_idempotent _ _ (by decide)
+
+/-! ### on whole URL text (urlsplit / urlunsplit modelled, IDNA opaque with stated laws) -/
+
+/-- an instance of the opaque parameters that satisfies the laws (hosts that are plain ASCII text
+are their own IDNA form): shows the hypotheses below are satisfiable -/
+def plainOpaque : UrlOpaque :=
+  { bracketOk := fun _ => true, nfkcOk := fun _ => true,
+    hostToAscii := fun h => if !h.isEmpty && h.all (fun c => hostChar c && decide (c.toNat < 128)) then some h else none,
+    hostToUnicode := fun h => if !h.isEmpty && h.all hostChar then some h else none }
+
+example : AsciiHostLaws plainOpaque := by
+  refine ⟨?_, ?_, fun _ _ _ _ => rfl⟩
+  · intro h r hr
+    simp only [plainOpaque] at hr
+    split at hr
+    · rename_i hc
+      cases hr
+      simp only [Bool.and_eq_true, Bool.not_eq_true', List.all_eq_true, decide_eq_true_eq] at hc
+      exact ⟨by intro e; simp [e] at hc, fun c hcm => hc.2 c hcm⟩
+    · cases hr
+  · intro h r hr
+    simp only [plainOpaque] at hr ⊢
+    split at hr
+    · rename_i hc; cases hr; simp [hc]
+    · cases hr
+
+example : InGrammar plainOpaque "http://üser:pw@example.com:8080/på th?q=è#f".toList :=
+  ⟨⟨"http".toList, "üser:pw@example.com:8080".toList, "/på th".toList, "q=è".toList, "f".toList⟩,
+    by rfl, by decide, by decide⟩
+
+example : (iriToUriText plainOpaque "HTTP://üser:pw@example.com:8080/på th?q=è#f".toList).toOption
+    = some "http://%C3%BCser:pw@example.com:8080/p%C3%A5%20th?q=%C3%A8#f".toList := by decide
+
+/-- **`iri_to_uri` on URL text** (urlsplit, netloc assembly and urlunsplit included): for every URL
+of the grammar - it splits, has a scheme and a host - the result is pure ASCII and converting it
+again changes nothing, under the laws assumed of the opaque `hostname.lower()` + IDNA step
+(its output is non-empty ASCII host text, is its own image, and passes the bracket check when it
+is an IPv6 literal). -/
+theorem iriToUriText_ascii_idempotent (o : UrlOpaque) (laws : AsciiHostLaws o) (url r : Str)
+    (hg : InGrammar o url) (h : iriToUriText o url = .ok r) :
+    (∀ c ∈ r, c.toNat < 128) ∧ iriToUriText o r = .ok r :=
+  ⟨iriToUriText_ascii laws hg h, iriToUriText_idem laws hg h⟩
+
+/-- Outside the grammar (no host) the text-level statement is false - the known `urlunsplit` quirk
+for paths that start with `//`: `iri_to_uri("p:////")` is `"p://"`, whose image is `"p:"`. -/
+theorem iriToUriText_not_idempotent_without_host :
+    (iriToUriText plainOpaque "p:////".toList).toOption = some "p://".toList ∧
+    (iriToUriText plainOpaque "p://".toList).toOption = some "p:".toList := by decide
+
+/-- **Known finding F15c, as a theorem about the model**: `EnvironBuilder(path="/a\tb")` does not
+hand the path through - `urlsplit`, which it applies to its `path` argument, deletes TAB (likewise
+CR, LF), so `Request.path` is `"/ab"`. -/
+theorem environ_path_full_false :
+    (((builderEnviron plainOpaque "/a\tb".toList "http://localhost/".toList []).bind
+      (requestView plainOpaque)).toOption.map (fun r => r.path)) = some "/ab".toList := by decide
 
 /-- `%` (0x25) and every C0 control, SP and DEL stay quoted in every component of `uri_to_iri`, and
 each component keeps its own delimiters quoted (tables evaluated from the live compiled patterns):
